@@ -1,6 +1,8 @@
 package main
 
 import (
+	"sync"
+	"sync/atomic"
 	"unsafe"
 
 	"github.com/cloudwego/gopkg/unsafex"
@@ -51,6 +53,36 @@ func c20StackKey100(id byte, n int) []byte {
 	return pre121.StringToBinary(s)
 }
 
+func c20Concurrent(vr, workers, rounds int) bool {
+	parent := string(Pat(7, workers*300+64))
+	pbytes := []byte(parent)
+	var bad int32
+	var wg sync.WaitGroup
+	for w := 0; w < workers; w++ {
+		wg.Add(1)
+		go func(w int) {
+			defer wg.Done()
+			off, n := w*300, 200+w
+			s := parent[off : off+n]
+			b0 := pbytes[off : off+n : off+n+7]
+			for i := 0; i < rounds; i++ {
+				b := c20S2B(vr, s)
+				if len(b) != n || cap(b) != n || unsafe.SliceData(b) != unsafe.StringData(s) || b[0] != parent[off] || b[n-1] != parent[off+n-1] {
+					atomic.AddInt32(&bad, 1)
+					return
+				}
+				t := c20B2S(vr, b0)
+				if len(t) != n || unsafe.StringData(t) != unsafe.SliceData(b0) || t[n-1] != parent[off+n-1] {
+					atomic.AddInt32(&bad, 1)
+					return
+				}
+			}
+		}(w)
+	}
+	wg.Wait()
+	return atomic.LoadInt32(&bad) == 0
+}
+
 //go:noinline
 func c20Churn(depth int, fill byte) byte {
 	var pad [256]byte
@@ -67,6 +99,11 @@ func init() {
 	register("C20", &Prop{
 		Gen: func(g *Gen) {
 			sizes := []int{0, 1, 2, 3, 7, 8, 15, 16, 17, 63, 64, 65, 255, 256, 1000}
+			for vr := 0; vr < 2; vr++ {
+				for k := 0; k < 3; k++ {
+					g.Add("concurrent", Ls(I(2), I(8+4*k), I(g.Scale(4000, 100000)), I(0), I(0), I(0), I(vr)))
+				}
+			}
 			for _, opv := range []int{0, 1, 2, 3} {
 				op, vr := opv%2, opv/2
 				g.Add("nil", Ls(I(op), I(0), I(0), I(0), I(0), I(1), I(vr)))
@@ -138,6 +175,11 @@ func init() {
 					}
 				}
 				return true
+			}
+			if op == 2 {
+				// conversions of DIFFERENT strings / slices running at the same time in several goroutines:
+				// each result must be the view of its own argument (bl = workers, off = rounds)
+				return Ls(I(0), I(0), I(0), Bo(c20Concurrent(vr, bl, off)), I(1), I(1))
 			}
 			if huge {
 				// no copies of a gigabyte: sampled content, pointer, len, cap only
